@@ -33,6 +33,16 @@ CLAIMED = {
              "cases whose exact outcome depends on the tolerance are counted as degenerate and not compared.",
         technique="Coq proof (field/lra over Q) on a hand model + differential correspondence",
         design="6/C20"),
+    "C13": dict(
+        text="Coq theorems (axiom-free) about a labelled-transition-system model of ParallelMap.__call__: for every number of workers, every "
+             "number of tasks and EVERY schedule, results are never stored in a wrong position, a finished call returns the serial list or raises "
+             "the serial exception (lowest failing index), a step is always enabled while the caller waits and every step decreases a measure "
+             "(no blocking). Completion orders and failing positions are enumerated on the real ParallelMap with gate files; a grid built with "
+             "number_of_processors=2 is compared bit for bit with the serial grid.",
+        note="Trusted: Coq kernel; the LTS abstraction (atomic steps, anonymous workers, FIFO lossless queues, faithful pickling); OS scheduling "
+             "outside the model; the scenario driver.",
+        technique="Coq proof (inductive invariant over all schedules) on a hand LTS model + schedule enumeration on the implementation",
+        design="6/C13"),
 }
 
 PENDING = ["C01", "C03", "C04", "C05", "C06", "C07", "C08", "C09", "C10", "C11", "C12", "C13", "C14", "C15", "C16", "C17", "C18", "C19", "C20"]
